@@ -127,7 +127,11 @@ func (t *Table) readMeta(r io.Reader) (total int64, err error) {
 
 func (t *Table) readBlock(r io.Reader) (int, []byte, error) {
 	b := make([]byte, 16)
-	n, err := r.Read(b)
+	n, err := io.ReadFull(r, b)
+	if err == io.ErrUnexpectedEOF {
+		// a truncated sum is reported like a missing one ("unexpected EOF reading block ...")
+		err = io.EOF
+	}
 	if err != nil {
 		return 0, nil, err
 	}
